@@ -82,7 +82,8 @@ def run_drive(binary, args, out, wd, timeout=1800, max_crashes=12):
             signame = signal.Signals(sig).name
         except ValueError:
             signame = str(sig)
-        crashes.append({'id': cid, 'signal': signame, 'stderr': p.stderr[-1500:]})
+        api = open(marker + '.api').read().strip() if os.path.exists(marker + '.api') else ''
+        crashes.append({'id': cid, 'signal': signame, 'stderr': p.stderr[-1500:], 'api': api})
         skip.append(cid)
         if len(crashes) >= max_crashes:
             log('too many crashes, giving up re-running')
